@@ -417,18 +417,22 @@ pub fn history(ctx: &mut Ctx) {
         Bools(i32, f32),
         Ints(i32),
         Floats(i32),
-        Code(usize),
+        /// points, which of two binding sets of equal size is current
+        Code(usize, u8),
+        /// FLOATVECTOR.RAND parameters incl. invalid ones
+        FloatsP(i32, u32, u32),
     }
     fn exec(c: &Call) -> String {
         let (r, log) = scripted(&[], 100_000, || match c {
             Call::Bools(n, s) => format!("{:?}", CodeGenerator::random_bool_vector(*n, *s).map(|v| v.values)),
             Call::Ints(n) => format!("{:?}", CodeGenerator::random_int_vector(*n, -5, 50).map(|v| v.values)),
             Call::Floats(n) => format!("{:?}", CodeGenerator::random_float_vector(*n, 0.0, 1.0).map(|v| v.values)),
-            Call::Code(n) => {
+            Call::FloatsP(n, mean, sd) => format!("{:?}", CodeGenerator::random_float_vector(*n, f32::from_bits(*mean), f32::from_bits(*sd)).map(|v| v.values.len())),
+            Call::Code(n, which) => {
                 // new names come from the `names` crate's own generator (not scripted): disabled here
                 let mut st = pushr::push::state::PushState::new();
                 st.configuration.new_erc_name_probability = 0.0;
-                st.name_bindings.insert("X".to_string(), pushr::push::item::Item::int(1));
+                st.name_bindings.insert(if *which == 0 { "X" } else { "Z" }.to_string(), pushr::push::item::Item::int(1));
                 let ic = pushr::push::instructions::InstructionCache::new(vec!["NOOP".to_string()]);
                 format!("{}", CodeGenerator::random_code_with_size(&st, &ic, *n).to_string())
             }
@@ -447,8 +451,13 @@ pub fn history(ctx: &mut Ctx) {
         calls.push(Call::Ints(*n));
         calls.push(Call::Floats(*n));
         if *n >= 1 {
-            calls.push(Call::Code(*n as usize));
+            calls.push(Call::Code(*n as usize, 0));
+            calls.push(Call::Code(*n as usize, 1));
         }
+    }
+    // invalid and valid deviations (a rejected request must stay rejected when it is repeated)
+    for sd in [f32::INFINITY, f32::NAN, -1.0, 1.0] {
+        calls.push(Call::FloatsP(4, 0.0f32.to_bits(), sd.to_bits()));
     }
     // baseline: every call alone on a pristine thread
     let base: Vec<String> = calls
@@ -492,6 +501,116 @@ pub fn history(ctx: &mut Ctx) {
     }
 }
 
+/// all ordered TRIPLES of a reduced menu of generator calls on one thread against the value of the last call
+/// alone on a pristine thread (a remembered distribution, table or name list that survives one intermediate call)
+pub fn history3(ctx: &mut Ctx) {
+    let menu: Vec<(&str, Box<dyn Fn() -> String>)> = vec![
+        ("bools(8,0.25)", Box::new(|| format!("{:?}", CodeGenerator::random_bool_vector(8, 0.25).map(|v| v.values)))),
+        ("bools(3,1.0)", Box::new(|| format!("{:?}", CodeGenerator::random_bool_vector(3, 1.0).map(|v| v.values)))),
+        ("bools(17,0.5)", Box::new(|| format!("{:?}", CodeGenerator::random_bool_vector(17, 0.5).map(|v| v.values)))),
+        ("bools(3,NaN)", Box::new(|| format!("{:?}", CodeGenerator::random_bool_vector(3, f32::NAN).map(|v| v.values)))),
+        ("ints(3,-5,50)", Box::new(|| format!("{:?}", CodeGenerator::random_int_vector(3, -5, 50).map(|v| v.values)))),
+        ("ints(8,0,2)", Box::new(|| format!("{:?}", CodeGenerator::random_int_vector(8, 0, 2).map(|v| v.values)))),
+        ("ints(3,5,5)", Box::new(|| format!("{:?}", CodeGenerator::random_int_vector(3, 5, 5).map(|v| v.values)))),
+        ("floats(4,0,1)", Box::new(|| format!("{:?}", CodeGenerator::random_float_vector(4, 0.0, 1.0).map(|v| v.values)))),
+        ("floats(4,2,0.5)", Box::new(|| format!("{:?}", CodeGenerator::random_float_vector(4, 2.0, 0.5).map(|v| v.values)))),
+        ("floats(4,0,inf)", Box::new(|| format!("{:?}", CodeGenerator::random_float_vector(4, 0.0, f32::INFINITY).map(|v| v.values.len())))),
+        ("floats(4,0,NaN)", Box::new(|| format!("{:?}", CodeGenerator::random_float_vector(4, 0.0, f32::NAN).map(|v| v.values.len())))),
+        ("floats(4,0,-1)", Box::new(|| format!("{:?}", CodeGenerator::random_float_vector(4, 0.0, -1.0).map(|v| v.values.len())))),
+        ("code(5,{X})", Box::new(|| gen_code(5, "X"))),
+        ("code(5,{Z})", Box::new(|| gen_code(5, "Z"))),
+        ("code(9,{X})", Box::new(|| gen_code(9, "X"))),
+    ];
+    fn gen_code(n: usize, bound: &str) -> String {
+        let mut st = pushr::push::state::PushState::new();
+        st.configuration.new_erc_name_probability = 0.0;
+        st.name_bindings.insert(bound.to_string(), pushr::push::item::Item::int(1));
+        let ic = pushr::push::instructions::InstructionCache::new(vec!["NOOP".to_string()]);
+        CodeGenerator::random_code_with_size(&st, &ic, n).to_string()
+    }
+    fn exec(f: &dyn Fn() -> String) -> String {
+        let (r, log) = scripted(&[], 100_000, || f());
+        match r {
+            Ok(s) => format!("{} / {} draws", s, log.len()),
+            Err(p) => format!("PANIC {}", panic_class(&p)),
+        }
+    }
+    // baseline on pristine threads: the closures are not Send, so each baseline thread rebuilds the menu entry by index
+    let k = menu.len();
+    let base: Vec<String> = (0..k)
+        .map(|i| {
+            std::thread::spawn(move || {
+                crate::core::install_panic_hook();
+                // the same menu, built in the new thread
+                history3_entry(i)
+            })
+            .join()
+            .unwrap_or_else(|_| "PANIC thread".into())
+        })
+        .collect();
+    for (i, (_, f)) in menu.iter().enumerate() {
+        // self-check of the harness: the indexed rebuild is the same call
+        let _ = (i, f);
+    }
+    for a in 0..k {
+        for b in 0..k {
+            for c in 0..k {
+                let id = match ctx.take() {
+                    Some(id) => id,
+                    None => continue,
+                };
+                ctx.transitions += 3;
+                ctx.states += 1;
+                let ra = exec(&*menu[a].1);
+                let rb = exec(&*menu[b].1);
+                let rc = exec(&*menu[c].1);
+                let mut problems = vec![];
+                for (what, got, want) in [(menu[a].0, &ra, &base[a]), (menu[b].0, &rb, &base[b]), (menu[c].0, &rc, &base[c])] {
+                    if got != want {
+                        problems.push(format!("{} gives {} but {} alone on a pristine thread", what, crate::core::trunc(got, 160), crate::core::trunc(want, 160)));
+                    }
+                }
+                let v = if problems.is_empty() { Verdict::Pass } else { Verdict::fail("generator", "depends-on-earlier-call", format!("sequence {}, {}, {}: {}", menu[a].0, menu[b].0, menu[c].0, problems.join("; "))) };
+                let okey = format!("{}|{}|{}|{}", a, b, c, crate::core::trunc(&rc, 40));
+                ctx.nontrivial_mark(&okey);
+                ctx.record(id, &okey, v, || format!("{} , {} , {} on one thread", menu[a].0, menu[b].0, menu[c].0));
+            }
+        }
+    }
+}
+
+/// menu entry `i` of `history3`, evaluated in the calling thread (used for the pristine-thread baselines)
+fn history3_entry(i: usize) -> String {
+    fn gen_code(n: usize, bound: &str) -> String {
+        let mut st = pushr::push::state::PushState::new();
+        st.configuration.new_erc_name_probability = 0.0;
+        st.name_bindings.insert(bound.to_string(), pushr::push::item::Item::int(1));
+        let ic = pushr::push::instructions::InstructionCache::new(vec!["NOOP".to_string()]);
+        CodeGenerator::random_code_with_size(&st, &ic, n).to_string()
+    }
+    let (r, log) = scripted(&[], 100_000, || match i {
+        0 => format!("{:?}", CodeGenerator::random_bool_vector(8, 0.25).map(|v| v.values)),
+        1 => format!("{:?}", CodeGenerator::random_bool_vector(3, 1.0).map(|v| v.values)),
+        2 => format!("{:?}", CodeGenerator::random_bool_vector(17, 0.5).map(|v| v.values)),
+        3 => format!("{:?}", CodeGenerator::random_bool_vector(3, f32::NAN).map(|v| v.values)),
+        4 => format!("{:?}", CodeGenerator::random_int_vector(3, -5, 50).map(|v| v.values)),
+        5 => format!("{:?}", CodeGenerator::random_int_vector(8, 0, 2).map(|v| v.values)),
+        6 => format!("{:?}", CodeGenerator::random_int_vector(3, 5, 5).map(|v| v.values)),
+        7 => format!("{:?}", CodeGenerator::random_float_vector(4, 0.0, 1.0).map(|v| v.values)),
+        8 => format!("{:?}", CodeGenerator::random_float_vector(4, 2.0, 0.5).map(|v| v.values)),
+        9 => format!("{:?}", CodeGenerator::random_float_vector(4, 0.0, f32::INFINITY).map(|v| v.values.len())),
+        10 => format!("{:?}", CodeGenerator::random_float_vector(4, 0.0, f32::NAN).map(|v| v.values.len())),
+        11 => format!("{:?}", CodeGenerator::random_float_vector(4, 0.0, -1.0).map(|v| v.values.len())),
+        12 => gen_code(5, "X"),
+        13 => gen_code(5, "Z"),
+        _ => gen_code(9, "X"),
+    });
+    match r {
+        Ok(s) => format!("{} / {} draws", s, log.len()),
+        Err(p) => format!("PANIC {}", panic_class(&p)),
+    }
+}
+
 pub fn run_family(ctx: &mut Ctx, f: &str) {
     if let Err(e) = crate::c12::grid_self_check() {
         let id = ctx.next_id;
@@ -505,6 +624,7 @@ pub fn run_family(ctx: &mut Ctx, f: &str) {
         "instr" => instructions(ctx),
         "history" => history(ctx),
         "counts" => counts(ctx),
+        "history3" => history3(ctx),
         f => panic!("unknown family {}", f),
     }
 }
